@@ -112,6 +112,12 @@ func runC04(c *eng.Ctx) {
 			} else {
 				s.Regs = append(s.Regs, forms[b].regs...)
 			}
+			switch {
+			case forms[a].rebuildAfter() > 0:
+				s.RebuildAfter = forms[a].rebuildAfter()
+			case a != b && forms[b].rebuildAfter() > 0:
+				s.RebuildAfter = len(forms[a].regs) + forms[b].rebuildAfter()
+			}
 			m := NewModel(s)
 			rejected := false
 			for i := range m.Regs {
@@ -173,6 +179,19 @@ type formCase struct {
 	regs []Reg
 }
 
+// formRebuild: forms (by name prefix) whose collection is built and used once after that many of
+// the form's registrations, then extended with the rest and built again.
+var formRebuild = map[string]int{"in-opt-added-after-first-build-": 1, "group-extended-after-first-build-": 2}
+
+func (f formCase) rebuildAfter() int {
+	for p, n := range formRebuild {
+		if strings.HasPrefix(f.name, p) {
+			return n
+		}
+	}
+	return 0
+}
+
 // formCatalogue: one small registration cluster per supported form; pairs are combined.
 func formCatalogue() []formCase {
 	L := []godi.Lifetime{godi.Singleton, godi.Scoped, godi.Transient}
@@ -204,6 +223,8 @@ func formCatalogue() []formCase {
 			formCase{"in-embedded-ignored-" + ln, []Reg{mkReg("Leaf_K0_a", l), mkReg("Leaf_K1_a", l), mkReg("Leaf_K2_a", l, withGroup("g")), mkReg("InEmb_S4", l)}},
 			formCase{"in-embedded-both-" + ln, []Reg{mkReg("Leaf_K0_a", l), mkReg("Leaf_K1_a", l), mkReg("InEmb_K2", l)}},
 			formCase{"in-embedded-only-" + ln, []Reg{mkReg("Leaf_S0_a", l), mkReg("InEmb_S5", l)}},
+			formCase{"in-opt-added-after-first-build-" + ln, []Reg{mkReg("InU_3_4_Opt", l), mkReg("PosA_2_0", l)}},
+			formCase{"group-extended-after-first-build-" + ln, []Reg{mkReg("InU_3_4_Group", l), mkReg("Leaf_K2_b", l, withGroup("g")), mkReg("Leaf_K2_c", l, withGroup("g"))}},
 			formCase{"in-keyed-" + ln, []Reg{mkReg("Leaf_K1_c", l, withName("k")), mkReg("InU_3_2_Keyed", l)}},
 			formCase{"in-opt-present-" + ln, []Reg{mkReg("PosA_2_0", l), mkReg("InU_3_4_Opt", l)}},
 			formCase{"in-opt-absent-" + ln, []Reg{mkReg("InU_3_5_Opt", l)}},
